@@ -14,7 +14,7 @@ import (
 // real planner; the executor is a harness fake behind the repository's interface).
 
 const vS8 = `
-type Query { a: String legacy: String @deprecated(reason: "use b") b: String }
+type Query { a(n: Int): String legacy: String @deprecated(reason: "use b") b: String }
 type Mutation { m: String }
 `
 
@@ -32,8 +32,8 @@ func (e *vExec8) Execute(ctx *executor.ExecutionContext) (map[string]interface{}
 	case "partial":
 		return map[string]interface{}{"tag": tag}, errors.New("partial " + tag)
 	}
-	// no cross-talk: the executor sees the request of its own operation
-	return map[string]interface{}{"tag": tag, "q": ctx.Request.Query}, nil
+	// no cross-talk: the executor sees the request of its own operation (its text and its variables)
+	return map[string]interface{}{"tag": tag, "q": ctx.Request.Query, "n": ctx.Request.Variables["n"]}, nil
 }
 
 type vPlan8 struct{ inner planner.SequentialPlanner }
@@ -55,7 +55,11 @@ type vReq8 struct {
 func vPool8(i int) vReq8 {
 	tag := "t" + verifItoa(i)
 	vars := func(mode string) map[string]interface{} { return map[string]interface{}{"t": tag, "mode": mode} }
-	switch verifChoice("class"+verifItoa(i), verifParam("classes", 12)) {
+	class := verifChoice("class"+verifItoa(i), verifParam("classes", 14))
+	if p := verifParam("pin"+verifItoa(i), -1); p >= 0 {
+		verifAssume(class == p)
+	}
+	switch class {
 	case 0:
 		return vReq8{Query: `{ a }`, Variables: vars("ok")}
 	case 1:
@@ -78,6 +82,11 @@ func vPool8(i int) vReq8 {
 		return vReq8{Query: `query A { a }`, Variables: vars("ok"), OperationName: "Nope"}
 	case 11:
 		return vReq8{Query: `{ legacy b }`, Variables: vars("ok")}
+	case 12:
+		// no variables object at all; the operation declares a default
+		return vReq8{Query: `query A($n: Int = 7) { a(n: $n) }`}
+	case 13:
+		return vReq8{Query: `query B($n: Int) { x: a(n: $n) }`}
 	}
 	return vReq8{Query: `{ a }`, Variables: vars("partial")}
 }
